@@ -17,7 +17,7 @@ RULE = ("cases: PSD / PD operators (every class at the root, nestings to depth 2
         "(L L^T = A with L triangular in the requested orientation; R R^T = A or A^-1; Q^T Q = I and Q diag(w) Q^T = A; U, V orthonormal, "
         "S >= 0, U diag(S) V^T = A); Lanczos-based roots (read from lanczos.* hook events): R R^T = P A P with P the orthogonal projector "
         "onto range(R), within the jitter tolerance; pivoted_cholesky: A - R R^T PSD. distinct key = (root class, query, method, path, "
-        "settings key, dtype) [added: composite Kronecker factors (Root with a non-triangular root, AddedDiag, ConstantMul, PsdSum) for Kron / SumKron / KronAddedDiag roots; errors relative to max(||A||, 1e-2) (absolute jitter)] [round 5: in 35% of the cases the operator's own square symmetric sub-operators are factorized the same way AFTER the whole and judged against their denotation taken before (tag part_after_whole)]")
+        "settings key, dtype) [added: composite Kronecker factors (Root with a non-triangular root, AddedDiag, ConstantMul, PsdSum) for Kron / SumKron / KronAddedDiag roots; errors relative to max(||A||, 1e-2) (absolute jitter)] [round 5: in 35% of the cases the operator's own square symmetric sub-operators are factorized the same way AFTER the whole and judged against their denotation taken before (tag part_after_whole)] [round 6: dense operators also get 1 / 3 supplied start vectors for Lanczos inverse roots, and the root such a run leaves in the cache is judged (shape, compression identity)]")
 ASSUMPTIONS = ["float64 reconstruction on the dense matrix is the reference", "lanczos.* hook events identify Lanczos-based results",
                "jittered-Lanczos tolerance 1e-4 * kappa (kappa <= 100, float64 only); direct tolerance 2000 eps kappa"]
 REQUIRED_STATS = ("queries", "path:lanczos", "path:direct")
